@@ -95,6 +95,7 @@ func LoadProgram(repo string, dirs []string) (*Program, error) {
 	for _, path := range paths {
 		pk := p.Pkgs[path]
 		cs := NewContractSet()
+		cs.PkgPath = path
 		p.Contracts[path] = cs
 		for _, f := range pk.CompiledGoFiles {
 			if strings.HasSuffix(f, "_verif.go") {
